@@ -86,13 +86,32 @@ def kstr(key):
 
 _UNIVERSE = None
 _CACHE = {}
+_REL = None
 
 
-def _init_worker(universe):
-    global _UNIVERSE, _CACHE
+def _init_worker(universe, rel=None):
+    global _UNIVERSE, _CACHE, _REL
     _UNIVERSE = universe
     _CACHE = {}
+    _REL = rel
     import drive  # noqa  (imports awesomeyaml from /repo)
+
+
+def _docs_outcome(docs, safes):
+    """compact outcome after every stage of an explicit history (stops at the first error)"""
+    import drive
+    import project as P
+    got = []
+    for j in range(1, len(docs) + 1):
+        try:
+            t = drive.build_tree(docs[:j], list(safes[:j]))
+            o = compact_node(P.project(t))
+        except Exception as e:  # noqa
+            o = {"e": drive.errclass(e)}
+        got.append(o)
+        if isinstance(o, dict) and "e" in o:
+            break
+    return got
 
 
 def _prefix_outcome(idx, safes):
@@ -122,12 +141,23 @@ def _replay_one(beh):
         got.append(o)
         if isinstance(o, dict) and "e" in o:
             break
-    return None if got == norm_expected(want) else {"h": idx, "s": safes, "want": want, "got": got}
+    want = norm_expected(want)
+    if got != want:
+        return {"h": idx, "s": safes, "want": want, "got": got}
+    if _REL:
+        import relations
+        relfn, chk = relations.RELATIONS[_REL]
+        docs = [_UNIVERSE[i - 1] for i in idx]
+        for rel in relfn(docs, None):
+            rgot = _docs_outcome(rel["docs"], [True] * len(rel["docs"]))
+            if not chk(rel, want, rgot):
+                return {"h": idx, "s": safes, "want": want, "got": got, "rel": rel["name"], "relgot": rgot}
+    return None
 
 
-def replay(universe, behaviours, nproc=16):
+def replay(universe, behaviours, nproc=16, rel=None):
     behaviours = sorted(behaviours, key=lambda b: b["h"])
-    with mp.Pool(nproc, initializer=_init_worker, initargs=(universe,)) as pool:
+    with mp.Pool(nproc, initializer=_init_worker, initargs=(universe, rel)) as pool:
         res = pool.map(_replay_one, behaviours, chunksize=max(1, len(behaviours) // (nproc * 8) or 1))
     return [r for r in res if r is not None]
 
@@ -136,14 +166,36 @@ def replay(universe, behaviours, nproc=16):
 # B1 workers
 
 def _record_one(args):
-    tid, docs, safes = args
+    tid, docs, safes = args[:3]
     import drive
-    return drive.history_trace(tid, docs, safes)
+    t = drive.history_trace(tid, docs, safes)
+    if _REL:
+        import relations
+        import random as _r
+        relfn, _ = relations.RELATIONS[_REL]
+        mode = args[3] if len(args) > 3 else "random"
+        if isinstance(mode, list):
+            rels = mode
+        else:
+            rels = relfn(docs, None if mode == "all" else _r.Random(tid))
+        out = []
+        for rel in rels:
+            outs = drive.stage_outcomes(rel["docs"], [True] * len(rel["docs"]))
+            r2 = {k: v for k, v in rel.items()}
+            r2["outs"] = [o if "err" not in o else {"err": o["err"]} for o in outs]
+            r2.setdefault("keys", [])
+            r2.setdefault("i", 0)
+            r2.setdefault("flag", "")
+            r2.setdefault("stage", 0)
+            r2.setdefault("path", [])
+            out.append(r2)
+        t["rel"] = out
+    return t
 
 
-def record(histories, nproc=16):
-    """histories: list of (tid, docs, safes) -> trace dicts"""
-    with mp.Pool(nproc, initializer=_init_worker, initargs=([],)) as pool:
+def record(histories, nproc=16, rel=None):
+    """histories: list of (tid, docs, safes[, "all"|"random"]) -> trace dicts"""
+    with mp.Pool(nproc, initializer=_init_worker, initargs=([], rel)) as pool:
         return pool.map(_record_one, histories, chunksize=max(1, len(histories) // (nproc * 8) or 1))
 
 
